@@ -94,7 +94,9 @@ FreshEnv(steps) ==
 Call(rec) == /\ hist' = Append(hist, rec)
              /\ ncalls' = ncalls + 1
 
-DoReset(start) ==
+\* reset as a pure function of (cfg, start); the action binds it once through a singleton set
+\* (TLC re-evaluates LET definitions for every reference inside an action)
+ResetF(start) ==
     LET steps == EpisodeSteps(cfg, cfg.fsteps, start)
         e0 == FreshEnv(steps)
         b  == Batch(cfg, cfg.part, steps, 1)
@@ -103,8 +105,11 @@ DoReset(start) ==
         s1 == NotifyAll([env |-> e1, log |-> <<>>], hist0, 0, FALSE)
         e2 == Fetch(s1.env)
         s2 == Notify([env |-> e2, log |-> s1.log], EnvEvent("reset", e2.now), 0, FALSE)
-        s3 == IF e2.done THEN Notify(s2, EnvEvent("done", s2.env.now), 0, FALSE) ELSE s2
-    IN  /\ env' = s3.env
+    IN  IF e2.done THEN Notify(s2, EnvEvent("done", s2.env.now), 0, FALSE) ELSE s2
+
+DoReset(start) ==
+    \E s3 \in {ResetF(start)} :
+        /\ env' = s3.env
         /\ elog' = s3.log
         /\ execs' = <<>>
         /\ ret' = [call |-> 0, out |-> "ok", done |-> s3.env.done, now |-> s3.env.now]
@@ -126,42 +131,46 @@ Reset ==
 \* the j-th step of the episode submits action j (class ok unless it is the configured malformed one)
 Action(j) == [id |-> j, cls |-> IF cfg.bad.at = j THEN cfg.bad.cls ELSE "ok"]
 
+\* one step() call as a pure function: [env, log, execs, ret, rec]
+StepF ==
+    LET j == env.j + 1
+        a == Action(j)
+    IN  IF env.done
+        THEN [env |-> env, log |-> <<>>, execs |-> execs,
+              ret |-> [call |-> j, out |-> "ended", done |-> TRUE, now |-> env.now],
+              rec |-> [call |-> "step", start |-> 0, act |-> a, out |-> "ended", done |-> TRUE,
+                       now |-> env.now, log |-> <<>>, exec |-> <<>>]]
+        ELSE
+        LET q1  == <<a>> \o env.queue               \* appendleft
+            due == LastOf(q1)                        \* pop
+            e1  == [env EXCEPT !.queue = SubSeq(q1, 1, Len(q1) - 1), !.j = j]
+            s1  == NotifyAll([env |-> [e1 EXCEPT !.pendL = <<>>], log |-> <<>>], e1.pendL, j, TRUE)
+        IN  IF due.cls # "ok"
+            THEN \* make_rebalancing_request rejects it: the exception leaves step() here
+                 [env |-> [s1.env EXCEPT !.dead = TRUE], log |-> s1.log, execs |-> execs,
+                  ret |-> [call |-> j, out |-> "error", done |-> FALSE, now |-> s1.env.now],
+                  rec |-> [call |-> "step", start |-> 0, act |-> a, out |-> "error", done |-> FALSE,
+                           now |-> s1.env.now, log |-> s1.log, exec |-> <<>>]]
+            ELSE
+            LET x  == [call |-> j, act |-> due.id, stamp |-> s1.env.now, books |-> s1.env.books]
+                s2 == NotifyAll(s1, s1.env.pendN, j, FALSE)
+                e3 == Fetch(s2.env)
+                s3 == Notify([env |-> e3, log |-> s2.log], EnvEvent("step", e3.now), j, FALSE)
+                s4 == IF e3.done THEN Notify(s3, EnvEvent("done", s3.env.now), j, FALSE) ELSE s3
+            IN  [env |-> s4.env, log |-> s4.log, execs |-> Append(execs, x),
+                 ret |-> [call |-> j, out |-> "ok", done |-> s4.env.done, now |-> s4.env.now],
+                 rec |-> [call |-> "step", start |-> 0, act |-> a, out |-> "ok", done |-> s4.env.done,
+                          now |-> s4.env.now, log |-> s4.log, exec |-> <<x>>]]
+
 Step ==
     /\ ncalls < MaxCalls
     /\ env.k > 0 /\ ~env.dead
-    /\ LET j   == env.j + 1
-           a   == Action(j)
-       IN  IF env.done
-           THEN \* refused until reset
-                /\ UNCHANGED <<env, elog, execs>>
-                /\ ret' = [call |-> j, out |-> "ended", done |-> TRUE, now |-> env.now]
-                /\ Call([call |-> "step", start |-> 0, act |-> a, out |-> "ended", done |-> TRUE,
-                         now |-> env.now, log |-> <<>>, exec |-> <<>>])
-           ELSE
-           LET q1  == <<a>> \o env.queue               \* appendleft
-               due == LastOf(q1)                        \* pop
-               e1  == [env EXCEPT !.queue = SubSeq(q1, 1, Len(q1) - 1), !.j = j]
-               s1  == NotifyAll([env |-> [e1 EXCEPT !.pendL = <<>>], log |-> <<>>], e1.pendL, j, TRUE)
-           IN  IF due.cls # "ok"
-               THEN \* make_rebalancing_request rejects it: the exception leaves step() here
-                    /\ env' = [s1.env EXCEPT !.dead = TRUE]
-                    /\ elog' = elog \o s1.log
-                    /\ UNCHANGED execs
-                    /\ ret' = [call |-> j, out |-> "error", done |-> FALSE, now |-> s1.env.now]
-                    /\ Call([call |-> "step", start |-> 0, act |-> a, out |-> "error", done |-> FALSE,
-                             now |-> s1.env.now, log |-> s1.log, exec |-> <<>>])
-               ELSE
-               LET x  == [call |-> j, act |-> due.id, stamp |-> s1.env.now, books |-> s1.env.books]
-                   s2 == NotifyAll(s1, s1.env.pendN, j, FALSE)
-                   e3 == Fetch(s2.env)
-                   s3 == Notify([env |-> e3, log |-> s2.log], EnvEvent("step", e3.now), j, FALSE)
-                   s4 == IF e3.done THEN Notify(s3, EnvEvent("done", s3.env.now), j, FALSE) ELSE s3
-               IN  /\ env' = s4.env
-                   /\ elog' = elog \o s4.log
-                   /\ execs' = Append(execs, x)
-                   /\ ret' = [call |-> j, out |-> "ok", done |-> s4.env.done, now |-> s4.env.now]
-                   /\ Call([call |-> "step", start |-> 0, act |-> a, out |-> "ok", done |-> s4.env.done,
-                            now |-> s4.env.now, log |-> s4.log, exec |-> <<x>>])
+    /\ \E r \in {StepF} :
+          /\ env' = r.env
+          /\ elog' = elog \o r.log
+          /\ execs' = r.execs
+          /\ ret' = r.ret
+          /\ Call(r.rec)
     /\ UNCHANGED cfg
 
 Next == Reset \/ Step
